@@ -36,6 +36,17 @@ pub enum Op {
     /// argument of that name is ambiguous to git unless it is followed by `--` (F25).
     /// untracked: the tree becomes dirty; tracked: a new commit that adds the file
     FileLikeRef { which: usize, tracked: bool },
+    /// `git pack-refs --all --prune` / `git gc`: refs move into packed-refs, objects into a pack; no fact changes
+    Repack { gc: bool },
+    /// a tag with a high version name on an object that is not a commit (a tree or a blob, as in
+    /// linux.git): it is on no commit, so it never counts
+    TagNonCommit { blob: bool },
+    /// refs outside refs/heads and refs/tags that point at commits: a remote-tracking branch, a
+    /// remote's tag namespace, a note-like ref, refs/stash-like.  None of them is a tag or a branch.
+    ForeignRef { kind: usize, at: usize },
+    /// a second root: an orphan line with its own (optionally tagged) commit, merged with
+    /// --allow-unrelated-histories
+    OrphanMerge { tag: Option<usize>, time_skew: i64 },
 }
 
 pub const BRANCHES: [&str; 10] = ["develop", "feature/x", "release/1", "fé/ü", "007", "hotfix/12/a", "release-2", "Feature/API-v2", "users/a+b@c", "1.2.3"];
@@ -305,7 +316,7 @@ impl Repo {
                 }
                 let t = self.time(*time_skew);
                 let hashes: Vec<String> = heads.iter().map(|h| self.model.commits[*h].hash.clone()).collect();
-                let mut args: Vec<&str> = vec!["merge", "-q", "--no-ff", "--no-edit", "-m", "merge"];
+                let mut args: Vec<&str> = vec!["merge", "-q", "--no-ff", "--no-edit", "--allow-unrelated-histories", "-m", "merge"];
                 args.extend(hashes.iter().map(|s| s.as_str()));
                 self.git(&args, Some(t))?;
                 let h = self.git(&["rev-parse", "HEAD"], None)?;
@@ -447,6 +458,73 @@ impl Repo {
                     self.model.untracked = true;
                 }
                 self.log.push(format!("a file named {name} ({})", if *tracked { "committed" } else { "untracked" }));
+            }
+            Op::Repack { gc } => {
+                self.git(&["pack-refs", "--all", "--prune"], None)?;
+                if *gc {
+                    self.git(&["gc", "-q", "--prune=now"], None)?;
+                }
+            }
+            Op::TagNonCommit { blob } => {
+                let nm = if *blob { "99.0.0" } else { "v98.0.0" };
+                if self.model.tags.iter().any(|t| t.name == nm) || self.dir.join(".git").join("refs").join("tags").join(nm).exists() {
+                    return Ok(());
+                }
+                let obj = self.git(&["rev-parse", if *blob { "HEAD:.gitignore" } else { "HEAD^{tree}" }], None)?;
+                // lightweight for the blob, annotated for the tree (both occur in the wild)
+                if *blob {
+                    self.git(&["tag", nm, &obj], None)?;
+                } else {
+                    let t = self.model.next_time + 5;
+                    self.git(&["tag", "-a", "-m", "tree", nm, &obj], Some(t))?;
+                }
+            }
+            Op::ForeignRef { kind, at } => {
+                let c = at % self.model.commits.len();
+                let h = self.model.commits[c].hash.clone();
+                let r = ["refs/remotes/origin/feature/remote-only", "refs/remotes/origin/9.9.9", "refs/remotes/origin/tags/v9.8.7", "refs/notes/v9.7.0", "refs/original/refs/tags/v9.6.0", "refs/pull/12/head"][kind % 6];
+                self.git(&["update-ref", r, &h], None)?;
+            }
+            Op::OrphanMerge { tag, time_skew } => {
+                self.clean_tree()?;
+                let back = self.model.head.clone();
+                let n = self.model.commits.len();
+                let nm = format!("orphan{n}");
+                self.git(&["checkout", "-q", "--orphan", &nm], None)?;
+                // the index keeps HEAD's files: the new root has the same content (so every later
+                // merge is conflict-free and the base files exist on every line) but no parent
+                std::fs::write(self.dir.join(format!("o{n}.txt")), format!("{n}\n")).map_err(|e| e.to_string())?;
+                self.git(&["add", &format!("o{n}.txt")], None)?;
+                let t = self.time(-(*time_skew));
+                self.git(&["commit", "-q", "-m", &format!("o{n}")], Some(t))?;
+                let h = self.git(&["rev-parse", "HEAD"], None)?;
+                self.model.commits.push(CommitM { parents: vec![], time: t, hash: h.clone() });
+                self.model.branches.push((nm.clone(), n));
+                if let Some(k) = tag {
+                    let tn = TAGS[k % TAGS.len()].to_string();
+                    if !self.model.tags.iter().any(|t| t.name == tn) {
+                        self.git(&["tag", &tn, &h], None)?;
+                        self.model.tags.push(TagM { name: tn, commit: n, annotated: false });
+                    }
+                }
+                match &back {
+                    HeadM::Branch(b) => {
+                        self.git(&["switch", "-q", "--no-guess", b], None)?;
+                    }
+                    HeadM::Detached(d) => {
+                        let h = self.model.commits[*d].hash.clone();
+                        self.git(&["checkout", "-q", "--detach", &h], None)?;
+                    }
+                }
+                self.model.head = back;
+                let head = self.model.head_commit();
+                let t2 = self.time(*time_skew);
+                self.git(&["merge", "-q", "--no-ff", "--no-edit", "--allow-unrelated-histories", "-m", "merge unrelated", &h], Some(t2))?;
+                let mh = self.git(&["rev-parse", "HEAD"], None)?;
+                let m = self.model.commits.len();
+                self.model.commits.push(CommitM { parents: vec![head, n], time: t2, hash: mh });
+                self.model.merges += 1;
+                self.advance_head(m);
             }
             Op::EmptyDir => {
                 std::fs::create_dir_all(self.dir.join("emptydir").join("nested")).map_err(|e| e.to_string())?;
